@@ -2,14 +2,14 @@
 (***************************************************************************)
 (* C15: the constant values to serialise, derived in prefix form (as in    *)
 (* JsonVal): leaves <<kind, payload>> with payload naming a boundary value *)
-(* (integers around 2**15, 2**30, 2**31, 2**32, 2**45, 2**63, 2**64-1;     *)
+(* (integers around 2**15, 2**30, 2**31, 2**32, 2**44, 2**45, 2**59, 2**60, 2**63, 2**64-1 -- i.e. bit lengths on both sides of every multiple of 15;     *)
 (* floats incl. -0.0, infinities, NaN; strings empty / ASCII / 255 and 256 *)
 (* characters / 2-, 3-, 4-byte characters), tuples of up to Depth levels.  *)
 (***************************************************************************)
 EXTENDS Integers, Sequences, FiniteSets, TLC, Json
 CONSTANTS Depth, Width
 Nats == {"0", "1", "255", "32767", "32768", "1073741823", "1073741824", "2147483647", "2147483648", "4294967295", "4294967296",
-         "35184372088832", "9223372036854775807", "9223372036854775808", "18446744073709551615"}
+         "17592186044416", "35184372088831", "35184372088832", "576460752303423488", "1152921504606846975", "9223372036854775807", "9223372036854775808", "18446744073709551615"}
 Ints == {"-1", "-32768", "-2147483647", "-2147483648"}
 Floats == {"0.0", "-0.0", "1.5", "-2.25", "inf", "-inf", "nan", "1e308", "5e-324"}
 Strs == {"", "ab", "ascii255", "ascii256", "u2", "u3", "u4", "mixed", "quote"}
